@@ -439,6 +439,19 @@ def run_sequential_loops(ctx: Ctx):
             y = system.predict(xs, use_model='best', max_fpi_iter=maxit, anderson_mem=amem, fpi_tol=FTOL)
         except Exception as e:
             ctx.violate('C06:predict-raises', f'{type(e).__name__}: {e}', case); continue
+        # the tightest iteration limit under which the fast sample converges alone: with exactly that limit it must converge in the batch too
+        # (each loop has the whole budget, whatever the other loop or the other samples used)
+        m0 = None
+        for m_ in range(1, 61):
+            y0 = system.predict({'xx': xs['xx'][:1]}, use_model='best', max_fpi_iter=m_, anderson_mem=amem, fpi_tol=FTOL)
+            if all(float(np.ravel(v_)[0]) == float(np.ravel(v_)[0]) for v_ in y0.values()):
+                m0 = m_; break
+        if m0 is not None:
+            yb = system.predict(xs, use_model='best', max_fpi_iter=m0, anderson_mem=amem, fpi_tol=FTOL)
+            bad0 = [k for k in yb if not (abs(float(np.ravel(yb[k])[0]) - float(np.ravel(y0[k])[0])) <= 1e-10 * (1 + abs(float(np.ravel(y0[k])[0]))))]
+            if bad0:
+                ctx.violate('C06:batch-dependence', f'sample 0 converges alone with max_fpi_iter={m0} ({ {k: float(np.ravel(y0[k])[0]) for k in bad0} }) but in the '
+                            f'batch it gives { {k: float(np.ravel(yb[k])[0]) for k in bad0} } (two sequential loops)', {**case, 'sample': 0, 'tight_limit': m0})
         for s in range(N):
             vals = {k: float(np.ravel(y[k])[s]) for k in y}
             for loop, down in ((('a0', 'a1'), ('b0', 'b1', 't')), (('b0', 'b1'), ('t',))):
